@@ -28,6 +28,7 @@ type c06Pod struct {
 	Present    bool
 	StartedAgo time.Duration
 	Containers []c06Container
+	Init       *c06Container // status of an init container (restarts and waiting reasons count like any container's)
 }
 
 type c06Case struct {
@@ -62,6 +63,9 @@ func (k c06Case) String() string {
 		fmt.Fprintf(&b, " pod%d{started %s ago", i, p.StartedAgo)
 		for _, c := range p.Containers {
 			fmt.Fprintf(&b, " [restarts=%d finished %s ago waiting=%q]", c.Restarts, c.FinishedAgo, c.Waiting)
+		}
+		if p.Init != nil {
+			fmt.Fprintf(&b, " init[restarts=%d finished %s ago waiting=%q]", p.Init.Restarts, p.Init.FinishedAgo, p.Init.Waiting)
 		}
 		b.WriteString("}")
 	}
@@ -104,6 +108,16 @@ func c06Draw(rt *rapid.T) c06Case {
 			c.FinishedAgo = rapid.SampledFrom([]time.Duration{time.Second, 15 * time.Second, 90 * time.Second, 5 * time.Minute}).Draw(rt, fmt.Sprintf("pod%d-c%d-finished", i, j))
 			c.Waiting = rapid.SampledFrom(c06Waiting).Draw(rt, fmt.Sprintf("pod%d-c%d-waiting", i, j))
 			p.Containers = append(p.Containers, c)
+		}
+		if rapid.IntRange(0, 3).Draw(rt, fmt.Sprintf("pod%d-init", i)) == 0 {
+			c := c06Container{}
+			c.Restarts = rapid.SampledFrom(counts).Draw(rt, fmt.Sprintf("pod%d-init-restarts", i))
+			if c.Restarts < 0 {
+				c.Restarts = 0
+			}
+			c.FinishedAgo = rapid.SampledFrom([]time.Duration{time.Second, 15 * time.Second, 90 * time.Second, 5 * time.Minute}).Draw(rt, fmt.Sprintf("pod%d-init-finished", i))
+			c.Waiting = rapid.SampledFrom([]string{"", "", "ErrImagePull", "PodInitializing", "CrashLoopBackOff"}).Draw(rt, fmt.Sprintf("pod%d-init-waiting", i))
+			p.Init = &c
 		}
 	}
 	ages := []time.Duration{-1, 5 * time.Second, 5 * time.Minute}
@@ -209,6 +223,20 @@ func runC06Order(k c06Case, perm []int) (vs []mon.V, obs []c06Obs, err error) {
 					cs.Ready = true
 				}
 				x.Status.ContainerStatuses = append(x.Status.ContainerStatuses, cs)
+			}
+			if kc := kp.Init; kc != nil {
+				cs := corev1.ContainerStatus{Name: "init", RestartCount: kc.Restarts}
+				if kc.Restarts > 0 {
+					cs.LastTerminationState = corev1.ContainerState{Terminated: &corev1.ContainerStateTerminated{ExitCode: 1, Reason: "Error", FinishedAt: metav1.NewTime(now.Add(-kc.FinishedAgo))}}
+				}
+				if kc.Waiting != "" {
+					cs.State = corev1.ContainerState{Waiting: &corev1.ContainerStateWaiting{Reason: kc.Waiting}}
+					allRunning = false
+				} else {
+					cs.State = corev1.ContainerState{Terminated: &corev1.ContainerStateTerminated{ExitCode: 0, Reason: "Completed", FinishedAt: started}}
+					cs.Ready = true
+				}
+				x.Status.InitContainerStatuses = []corev1.ContainerStatus{cs}
 			}
 			if allRunning {
 				for ci := range x.Status.Conditions {
@@ -362,7 +390,7 @@ func TestC06Order(t *testing.T) {
 }
 
 func TestC06Verdict(t *testing.T) {
-	rec := evid.New("TestC06Verdict", "C06", "canary of three nodes with 0-3 up-to-date canary pods (1-2 containers; restart counts at, below and above both thresholds; last-termination times; waiting reasons inside/outside the cannot-start set and ContainerCreating; start time around maxSlowStartDuration) x autoPause/autoFail enabled x thresholds x maxSlowStartDuration/maxRestartsDuration/canaryTimeout set or unset x prior Canary/Canary-Paused/Canary-Failed/PodRestarting conditions with ages around the limits x pause/unpause annotations, then 1-4 canary syncs through the real Reconcile with pod changes in between (stickiness, restart timeline); oracle = three-valued reference verdict; non-trivial = at least one pod and (a restart count within 1 of a threshold, a cannot-start/creating reason, or a prior condition); distinct by case rendering")
+	rec := evid.New("TestC06Verdict", "C06", "canary of three nodes with 0-3 up-to-date canary pods (1-2 containers, sometimes an init container status; restart counts at, below and above both thresholds; last-termination times; waiting reasons inside/outside the cannot-start set and ContainerCreating; start time around maxSlowStartDuration) x autoPause/autoFail enabled x thresholds x maxSlowStartDuration/maxRestartsDuration/canaryTimeout set or unset x prior Canary/Canary-Paused/Canary-Failed/PodRestarting conditions with ages around the limits x pause/unpause annotations, then 1-4 canary syncs through the real Reconcile with pod changes in between (stickiness, restart timeline); oracle = three-valued reference verdict; non-trivial = at least one pod and (a restart count within 1 of a threshold, a cannot-start/creating reason, or a prior condition); distinct by case rendering")
 	t.Cleanup(func() {
 		if !t.Failed() {
 			rec.Done()
